@@ -335,6 +335,11 @@ def _load_schema_version_sub(xml_version, schema_namespace="", xml_folder=None, 
             hed_cache.cache_local_versions(xml_folder)
             final_hed_xml_file = hed_cache.get_hed_version_path(xml_version, library_name, xml_folder)
             if not final_hed_xml_file:
+                # The cache could not be completed (another process may hold its lock for longer than the time-out):
+                # a schema installed with the package is read from the installation itself.
+                final_hed_xml_file = hed_cache.get_hed_version_path(xml_version, library_name,
+                                                                    hed_cache.INSTALLED_CACHE_LOCATION)
+            if not final_hed_xml_file:
                 # Cache all schemas if we haven't recently.
                 hed_cache.cache_xml_versions(cache_folder=xml_folder)
                 # 2. See if we got a copy from online
